@@ -1,5 +1,6 @@
 """C17 -- tilt-series metadata: mdoc round-trip, loaders and wedge lists are consistent"""
 from .common import *
+from . import C09 as _c09
 from sa import apicompat
 
 TITLE = "Tilt-series metadata: mdoc round-trip, loaders and wedge lists are consistent"
@@ -393,6 +394,13 @@ def o175(ctx):
             ctx.finding(qs, fs, f"sort_by_tilt must change only the order{' and ZValue' if reset else ''}; it writes {sorted(f.written)}", fs, ms)
     qr = "mdoc.Mdoc.remove_images"
     mr_, frm = ctx.prog.func(qr)
+    # all positions refer to the list of kept images as it is when the call starts: that list is taken once, before the loop that flags them
+    for lp_ in [n for n in ast.walk(frm) if isinstance(n, (ast.For, ast.While))]:
+        inside = [c_ for c_ in ast.walk(lp_) if isinstance(c_, ast.Call) and isinstance(c_.func, ast.Attribute) and c_.func.attr in ("kept_images", "removed_images")]
+        ctx.count(1)
+        if inside:
+            ctx.finding(qr, inside[0], "the list of kept images is re-evaluated inside the loop that removes them: after the first removal every later "
+                        "position points one image further (remove_images([2, 3]) flags the 3rd and the 5th image)", inside[0], mr_)
     for kept in (True, False):
         it = Interp(ctx.prog, assume=assume_map({"kept_only": kept}))
         me = mdoc_summary(None, [], {}, None, None)
@@ -420,6 +428,7 @@ def o175(ctx):
 
 def _obligations():
     return [
+        Obligation("O17.6", "loaders: tlt_load passes arrays / lists through and returns every file value (sorted only on request); total_dose_load hands doses back as given (shared with C09)", lambda ctx: (_c09.o96(ctx), _c09.o98(ctx)), floor=12),
         Obligation("O17.1", "library calls of loaders, mdoc and wedge-list builders exist in the installed pandas", o171, floor=15),
         Obligation("O17.2", "defocus readers: U,V x 1e-4, mean=(U+V)/2, same columns; ctffind4 header skipped", o172, floor=15),
         Obligation("O17.3", "mdoc dose = exposure + prior in one row order; tlt_load sorts only file input when asked", o173, floor=8),
